@@ -573,6 +573,24 @@ def gen_bgp(rng, n, tier):
             nl.append(E.prefix(24, rbytes(rng, 3)) if not addpath_of(codec, E.IPV4) else E.with_path_id(1, E.prefix(24, rbytes(rng, 3))))
         b = E.update([], [E.attr(0x40, 1, [0]), E.attr(0x40, 2, []), E.attr(0x40, 3, [1, 1, 1, 1])], nl)
         add(codec, [b.d])
+    # ---- a large frame that arrives in pieces and is FOLLOWED by further frames (decoder state across calls, round 4)
+    for _ in range(6 if tier == 'quick' else 16):
+        codec = rand_codec(rng, [E.IPV4])
+        L = rng.choice([4096, 4000, 3000] if not codec['ext'] else [4097, 5000, 9000, 4096])
+        nl = []
+        while sum(len(x) for x in nl) < L - 60:
+            nl.append(E.prefix(24, rbytes(rng, 3)) if not addpath_of(codec, E.IPV4) else E.with_path_id(1, E.prefix(24, rbytes(rng, 3))))
+        b = E.update([], [E.attr(0x40, 1, [0]), E.attr(0x40, 2, []), E.attr(0x40, 3, [1, 1, 1, 1])], nl)
+        rest = []
+        for _ in range(rng.randint(1, 3)):
+            rest += rand_msg(rng, codec).d
+        cuts = sorted(set(rng.randrange(1, len(b.d)) for _ in range(rng.randint(1, 3))))
+        chunks, prev = [], 0
+        for c in cuts:
+            chunks.append(b.d[prev:c]); prev = c
+        tail = fragment(rng, rest) if len(rest) < 400 else [rest]
+        chunks.append(b.d[prev:] + tail[0])
+        add(codec, chunks + tail[1:])
     return out
 
 def kind_of(fam):
@@ -809,6 +827,13 @@ class Prop:
                     'prefix_sid.rs and tunnel_encap.rs are not reached by try_parse (the receive path keeps those attributes as bytes) and are not covered',
                     'the marker (first 16 octets of the BGP header) is not checked by the code, the model or the property',
                     'String::from_utf8 in the FQDN capability is modelled by the Unicode well-formedness table (Model/Wire.v utf8_valid_fuel)',
+                    'HIDDEN DECODER STATE: the model\'s decoders are functions of the buffer (and, for BGP, of an immutable session codec); the five *_fragmentation_invariant / '
+                    '*_complete_frame_decided theorems therefore speak about decoders that are memoryless between calls BY CONSTRUCTION, while PeerCodec::try_parse and RtrCodec::decode '
+                    'take &mut self and can remember anything.  What ties the two: (i) the harness keeps ONE decoder object per stream, as the daemon does, and its event list is compared '
+                    'with the model on every case; (ii) on every stream case the implementation is also compared WITH ITSELF (gen/c03.py oracle_memoryless): the same chunks with a decoder '
+                    'object re-created before every call must give the same events one by one, and the same bytes fed whole must give the same messages and final error.  (ii) exposes '
+                    'state in any field, present or future, provided some generated stream drives the decoder into the state and then past it; the class list bgp_state_* / rtr_state_* '
+                    '(a frame whose length is read before its body has arrived, delivered in pieces, FOLLOWED by further frames) is what provides that, and is a sample, not a proof',
                     'the model is evaluated once per case for both build profiles (Proofs/WireOpen.v try_parse_profile_indep); the harness still runs the debug and the release build']
     assumptions = ['bytes are 0..255 (the harness cannot supply anything else)',
                    'the receive loop is the one of PeerSession::run_select / tokio_util FramedRead: append what was read, call the decoder until it '
